@@ -10,7 +10,7 @@ import (
 	"verifharness/internal/sup"
 )
 
-var feedActions = []string{"term0", "term1", "term2", "dropY", "close0", "close1", "delete"}
+var feedActions = []string{"term0", "term1", "term2", "dropY", "close0", "close1", "delete", "dropYclosed"}
 
 func feedScenario(c *sup.Ctx, r *rng.R, enumerated bool) {
 	s := &life.FeedScenario{Disk: c.Local%2 == 1, H2OpensY: (c.Local/2)%2 == 1}
@@ -78,6 +78,39 @@ func init() {
 						c.Incon(text)
 					} else {
 						c.Viol([]string{"C16"}, "feeds|queued|"+k, text, map[string]any{"callbacks_after_terminator": n})
+					}
+				}
+			}},
+			{Name: "queued-shutdown", Timeout: 60 * time.Second, Count: func(t string) int { return tierN(t, 12, 60) }, Run: func(c *sup.Ctx) {
+				// the same with the store shut down under the parked callback: CloseAndDelete (in-memory and on-disk) or Close of the only on-disk handle
+				kind := []int{life.FDump, life.FBackfillLive, life.FCheckpoint}[(c.Local/2)%3]
+				disk := c.Local%2 == 1
+				how := "delete"
+				if disk && (c.Local/6)%2 == 1 {
+					how = "close-last"
+				}
+				n, msg := life.QueuedEnd(c.Tmp, disk, kind, 20+10*(c.Local%5), how)
+				c.Count("queued_shutdown_probes", 1)
+				c.Cell(fmt.Sprintf("queued-shutdown|%s|%d|%v", how, kind, disk))
+				if msg != "" {
+					k, text := splitKind(msg)
+					if k == "setup" {
+						c.Incon(text)
+					} else {
+						c.Viol([]string{"C16"}, "feeds|queued|"+k, text, map[string]any{"callbacks_after": n})
+					}
+				}
+			}},
+			{Name: "sweep-after-recreate", Timeout: 60 * time.Second, Count: func(t string) int { return tierN(t, 4, 24) }, Run: func(c *sup.Ctx) {
+				msg := life.RecreatedCollectionSweep(c.Tmp, c.Local%2 == 1)
+				c.Count("sweep_after_recreate_probes", 1)
+				c.Cell(fmt.Sprintf("sweep-after-recreate|%v", c.Local%2 == 1))
+				if msg != "" {
+					k, text := splitKind(msg)
+					if k == "setup" {
+						c.Incon(text)
+					} else {
+						c.Viol([]string{"C16"}, "feeds|recreated|"+k, text, nil)
 					}
 				}
 			}},
